@@ -255,12 +255,12 @@ def make_worker(tier):
 
                     tree = _p(text, _L({})).unwrap()
                     for cat, seen in sorted(fv.extra_seen.items()):
-                        want = len(tree.get(cat).unwrap())
+                        want = len(list(tree.get(cat).unwrap()))
                         if seen != want:
                             S.violation("C10.gate", "C10.gate/registered-check-not-run-on-every-node/%s" % cat, inp, expected={"category": cat, "nodes": want}, actual={"evaluations_of_the_last_check": seen})
                     for cat in fv.categories:
-                        if cat != "uncategorized" and cat not in fv.extra_seen and len(tree.get(cat).unwrap()):
-                            S.violation("C10.gate", "C10.gate/registered-check-not-run-on-every-node/%s" % cat, inp, expected={"category": cat, "nodes": len(tree.get(cat).unwrap())}, actual={"evaluations_of_the_last_check": 0})
+                        if cat != "uncategorized" and cat not in fv.extra_seen and len(list(tree.get(cat).unwrap())):
+                            S.violation("C10.gate", "C10.gate/registered-check-not-run-on-every-node/%s" % cat, inp, expected={"category": cat, "nodes": len(list(tree.get(cat).unwrap()))}, actual={"evaluations_of_the_last_check": 0})
                 elif kind == "fault":
                     if fv.fired is None:
                         S.violation("harness", "harness/fault-point-not-reached", inp, actual={"evals": fv.evals, "k": k})
